@@ -103,14 +103,28 @@ def run(ctx):
                       {"case": int(idx), "seed": ctx.seed, "tier": ctx.tier, "detail": detail,
                        "how": "./check C16 --replay <this file> regenerates case <case> from <seed> and prints the "
                               "rendered Markdown, the model input and the model's blocks"})
-    if mism != 0 and not summ["propfail"]:
+    # "new failures only": a model mismatch stays a violation unless a NEW (not known) property failure explains it
+    new_fail = [k for k in summ["propfail"] if not any(o["signature"] == "c16-" + k for o in ctx.known_open)]
+    dm = re.search(r"CASES (\d+) MISMATCHES", mlog)
+    driver_cases = int(dm.group(1)) if dm else -1
+    written = summ.get("written", -2)
+    if (driver_cases != written or "DRIVER-ERROR" in mlog) and not new_fail:
+        ctx.violation("c16-correspondence-count", "the driver compared %d cases, the harness wrote %d (%s): the correspondence was not "
+                      "carried out on every case" % (driver_cases, written, (re.search(r"DRIVER-ERROR.*", mlog) or [""])[0] if "DRIVER-ERROR" in mlog else "no END marker problem"),
+                      {"driver_output": mlog[:2000]}, found_input=False)
+    if mism != 0 and not new_fail:
         first = re.search(r"MISMATCH case (\d+).*(\n  .*){0,3}", mlog)
         ctx.violation("c16-correspondence", "model and implementation disagree on %s case(s); the theorems of "
                       "Properties/C16.v no longer speak about this code: %s" % (mism, first.group(0) if first else mlog[-500:]),
                       {"case": int(first.group(1)) if first else None, "seed": ctx.seed, "tier": ctx.tier,
                        "driver_output": mlog[:3000]}, found_input=False)
+    ctx.min_evaluations = 150 if ctx.tier == "quick" else 5000
+    if strings_compared < 20 * max(1, written) and not ctx.replay and not new_fail:
+        ctx.violation("c16-correspondence-count", "only %d String() renderings were compared for %d cases" % (strings_compared, written),
+                      {"driver_output": mlog[-1500:]}, found_input=False)
     ctx.coverage.update({
-        "evaluations": summ.get("cases", 0),
+        "evaluations": written if written >= 0 else 0,
+        "cases_compared_by_driver": driver_cases,
         "distinct_nontrivial": summ.get("nontrivial", 0),
         "distinct_cases": summ.get("distinct", 0),
         "build_errors": summ.get("builderrors", 0),
